@@ -20,7 +20,7 @@ def strip_comments(text):
             i += 1
     return "".join(out)
 
-VERNAC = re.compile(r"(?:^|\.\s+)(?:Local\s+|Global\s+|#\[[^\]]*\]\s*)*(Definition|Fixpoint|CoFixpoint|Function|Lemma|Theorem|Corollary|Remark|Fact|Proposition|Example|Notation|Infix|Abbreviation|Ltac|Tactic\s+Notation|Set|Unset|Open|Close|Import|Export|Require|From|Inductive|CoInductive|Record|Structure|Class|Instance|Coercion|Arguments|Hint|Module|Section|End|Abort|Let|Program|Equations|Derive|Opaque|Transparent|Strategy|Declare|Existing|Canonical|Context|Variable|Hypothesis|Axiom|Parameter)\b")
+VERNAC = re.compile(r"(?:^|\.\s+)(?:Local\s+|Global\s+|#\[[^\]]*\]\s*)*(Definition|Fixpoint|CoFixpoint|Function|Lemma|Theorem|Corollary|Remark|Fact|Proposition|Example|Notation|Infix|Abbreviation|Ltac|Tactic\s+Notation|Set|Unset|Open|Close|Import|Export|Require|From|Inductive|CoInductive|Record|Structure|Class|Instance|Coercion|Arguments|Hint|Module|Section|End|Abort|Let|Program|Equations|Derive|Opaque|Transparent|Strategy|Declare|Existing|Canonical|Context|Variable|Hypothesis|Axiom|Parameter|Goal|Save|Proof)\b")
 
 def stmt_hash(path):
     t = strip_comments(open(path).read())
@@ -29,7 +29,7 @@ def stmt_hash(path):
         # a proof script holds tactics only: a vernacular sentence inside the stripped region (possible after `Abort.`
         # or `Proof term.`, which end a proof before the next Qed.) would be hidden from the hash - keep such a region
         # in the hash verbatim (third audit, F4; lib/vcheck.py also forbids Abort / Proof <term>)
-        if VERNAC.search(m.group(1)):
+        if VERNAC.search(". " + m.group(1)):
             return m.group(0)
         return m.group(0) if m.group(2) == "Defined." else "Proof. <script> Qed."
     t = re.sub(r"\bProof\b[^.]*\.(.*?)\b(Qed\.|Defined\.)", lambda m: repl(m), t, flags=re.S)
